@@ -56,7 +56,7 @@ def tasks(tier, seed):
                 for K in c['K']:
                     if tier == 'quick' and (d == 2 and K != 2):
                         continue
-                    if tier == 'thorough' and ((d == 3 and N >= 3) or (o == 5 and N == 3 and (d > 1 or K > 2)) or (d == 2 and K == 3)):
+                    if tier == 'thorough' and ((d == 3 and N >= 3) or (o == 5 and N == 3 and (d > 1 or K > 2)) or (d == 2 and K == 3) or (K == 3 and N >= 3) or (d == 2 and N >= 3 and o != 3)):
                         continue     # beyond what nlsat finishes in minutes (measured: single tasks > 45 min); K=3 only at DIM 1
                     fl = c['flags']
                     if tier == 'thorough' and not (N == 1 and K == 1 and d == 1):
@@ -75,7 +75,7 @@ def tasks(tier, seed):
             T.append({'name': 'T-all tident o%d d1 N%d K2' % (o, N), 'order': o, 'dim': 1, 'N': N, 'K': 2, 'kind': 'tident', 'mode': 'all', 'flags': [0b11111111, 0b00100100], 'seed': seed, 'timeout': to})
     for (o, d) in c['gen']:
         for gk in ('gen0', 'gen1', 'gen2', 'gen3', 'gen0T'):
-            for N in (1, 2) if tier == 'quick' else (1, 2, 3):
+            for N in (1, 2) if (tier == 'quick' or o != 3) else (1, 2, 3):
                 T.append({'name': 'T-all %s o%d d%d N%d K1' % (gk, o, d, N), 'order': o, 'dim': d, 'N': N, 'K': 1, 'kind': gk, 'mode': 'all', 'flags': [0b11111111, 0b10010110], 'seed': seed, 'timeout': to})
     return T
 
